@@ -242,12 +242,24 @@ def r01_5(ctx, repo):
             if not calls:
                 continue
             state = {}          # local name -> 'SEL' | 'RAW' | 'MIXED'
+            # locals of the loop that hold the output's selector itself
+            selnames = {a.targets[0].id for a in ast.walk(loop)
+                        if isinstance(a, ast.Assign) and len(a.targets) == 1
+                        and isinstance(a.targets[0], ast.Name)
+                        and isinstance(a.value, ast.Subscript)
+                        and U(a.value.value) == SEL
+                        and sum(1 for b in ast.walk(loop) if isinstance(
+                            b, ast.Assign) and any(
+                                U(t) == a.targets[0].id for t in b.targets))
+                        == 1}
 
             def kind(e):
                 if isinstance(e, ast.Name):
                     return state.get(e.id)
                 if isinstance(e, ast.Subscript):
-                    if SEL in U(e.slice):
+                    if SEL in U(e.slice) or any(
+                            isinstance(x, ast.Name) and x.id in selnames
+                            for x in ast.walk(e.slice)):
                         return 'SEL'
                     k = kind(e.value)
                     if k:
